@@ -27,9 +27,9 @@ def install_enum_order(enum_seed):
     real_pglob = pathlib.Path.glob
 
     def shuffled(items, tag):
-        items = sorted(items, key=str)
         if enum_seed is None:
-            return items
+            return items          # native order of the host file system
+        items = sorted(items, key=str)
         rng = core.sub_rng(enum_seed, 'enum', tag)
         rng.shuffle(items)
         return items
